@@ -10,6 +10,7 @@ mod fam_mailbox_t;
 mod fam_pg;
 mod fam_exitwait;
 mod fam_registry;
+mod fam_suptree;
 mod tdrv;
 mod hctl;
 mod trace;
@@ -69,6 +70,7 @@ fn main() {
         fam_remoteactor::dispatch,
         fam_exitwait::dispatch,
         fam_registry::dispatch,
+        fam_suptree::dispatch,
     ];
     for f in fams {
         if let Some(summary) = f(&cmd, &a) {
